@@ -976,8 +976,12 @@ def check_long_axis(ctx):
             out = results[combo]
             exp = long_axis_expected(g, out['pts'], 'tsc')
             got = dict(zip(out['rows'], out['vals']))
-            if out['sum'] != float(len(out['pts'])) or got != exp:
-                bad = sorted(set(got) ^ set(exp)) or [k for k in got if got[k] != exp.get(k)]
+            # the grid coordinate x * (g / Box) is exact only for some g (fastmath may use a reciprocal): rows whose weight is
+            # mathematically zero may receive ~1e-24, others differ in the last bits -> absolute tolerance, far below any
+            # kernel weight (the smallest non-zero one used here is 1/32)
+            TOL = 1e-9
+            bad = [k for k in sorted(set(got) | set(exp)) if abs(got.get(k, 0.0) - exp.get(k, 0.0)) > TOL]
+            if abs(out['sum'] - float(len(out['pts']))) > TOL or bad:
                 ctx.fail('_tsc_scatter deposit along a long axis is not the documented kernel', dict(case, rows=bad[:6]),
                          {'sum': out['sum'], 'got': {k: got.get(k) for k in bad[:6]}}, {'sum': len(out['pts']), 'expected': {k: exp.get(k) for k in bad[:6]}},
                          key=LONG_AXIS_KEY)
